@@ -223,7 +223,7 @@ class HtmlControl(pg_object.Object):
     self._run_javascript(
         f"""
         elem = document.getElementById("{self.element_id(child)}");
-        elem.style = "{Html.style_str(updated_styles)}";
+        elem.style = "{Html.escape(Html.style_str(updated_styles), javascript_str=True)}";
         """
     )
     return updated_styles
@@ -238,7 +238,7 @@ class HtmlControl(pg_object.Object):
     self._run_javascript(
         f"""
         elem = document.getElementById("{self.element_id(child)}");
-        elem.{name} = "{value}";
+        elem.{name} = "{Html.escape(value, javascript_str=True)}";
         """
     )
     return value
